@@ -587,3 +587,6 @@ def check(ctx: Ctx) -> None:
     # the proxied path: frames that arrive split or coalesced into channel items are re-assembled by ChannelFileRead (ProxyIO.read)
     from .C19 import check_stream_reassembly
     check_stream_reassembly(ctx, "C08.f")
+    # a sendall() that times out has written a prefix of the frame: the next frame lands behind the fragment
+    from .C16 import check_socket_blocking
+    check_socket_blocking(ctx, "C08.g")
